@@ -489,9 +489,13 @@ theorem modelCacheExtremum_eq (E : Env) (sup : Ops) (isMax : Bool) (e : Exp) (ex
   have hfl : (if isMax then (if signed then s.fe.maxSExh else s.fe.maxExh)
       else (if signed then s.fe.minSExh else s.fe.minExh)) = optFlags isMax signed s.fe := rfl
   rw [hfl]
-  split
-  · rfl
-  · cases isMax <;> rfl
+  cases isMax
+  · simp only [Bool.false_eq_true, ↓reduceIte]
+    generalize pickBy _ _ _ = p
+    cases p <;> rfl
+  · simp only [↓reduceIte]
+    generalize pickBy _ _ _ = p
+    cases p <;> rfl
 
 /-- **ModelCacheMixin.min / max** -/
 theorem mc_extremum_spec (hRE : ExpReg RE) {sup : Ops} (isMax : Bool) (e : Exp) (he : RE e) (extra : List Con)
@@ -531,7 +535,7 @@ theorem mc_extremum_spec (hRE : ExpReg RE) {sup : Ops} (isMax : Bool) (e : Exp) 
       obtain ⟨hopt, hcached, hsi2, hk2⟩ := hspec
       simp only
       by_cases hcache : (extra.isEmpty && subsetB e.vars s.fe.variables) = true
-      · simp only [hcache, ↓reduceIte, M.modifyFe_apply, pure, M.pure]
+      · simp only [hcache, ↓reduceIte, pure]
         simp only [Bool.and_eq_true, List.isEmpty_iff] at hcache
         obtain ⟨hex, hsubv⟩ := hcache
         subst hex
@@ -546,5 +550,106 @@ theorem mc_extremum_spec (hRE : ExpReg RE) {sup : Ops} (isMax : Bool) (e : Exp) 
         exact ⟨m, by rw [hf]; exact hm, hmv⟩
       · simp only [hcache, Bool.false_eq_true, ↓reduceIte, pure, M.pure]
         exact ⟨hopt, hcached, hsi2, hk2⟩
+
+/-! ### `solution` -/
+
+/-- **ModelCacheMixin.solution** -/
+theorem mc_solution_spec {self sup : Ops} (e : Exp) (hc : e.conc = none) (v : Nat) (extra : List Con)
+    (hsup : SolSpec R RE E G U e v extra (sup.solution e v extra)) :
+    SolSpec R RE E G U e v extra ((modelCacheLayer E self sup).solution e v extra) := by
+  intro s h
+  by_cases hin : ((allBatchSolutions E s.fe [e] extra true).map fun t => t.headD 0).contains v = true
+  · obtain ⟨hrun, hj⟩ := mc_solution_fast (self := self) (sup := sup) h.mc e hc v extra hin
+    rw [hrun]
+    exact ⟨by simpa [Judge, hc] using hj, h, Keep.refl U s⟩
+  · have : (modelCacheLayer E self sup).solution e v extra s = sup.solution e v extra s := by
+      show (do let fe ← M.getFe
+               let cached := (allBatchSolutions E fe [e] extra true).map fun t => t.headD 0
+               if cached.contains v then pure true else sup.solution e v extra : M Bool) s = _
+      simp only [bind, M.bind, M.getFe_apply, hin, Bool.false_eq_true, ↓reduceIte]
+    rw [this]
+    exact hsup s h
+
+/-! ### `_add` -/
+
+/-- `_trivial_model_optimization`, when `_add` calls it -/
+def trivOptFe (fe : Frontend) : Frontend :=
+  if fe.constraints.length == 1 && fe.models.isEmpty then
+    match (fe.constraints.headD default).triv with
+    | some (v, x, eid) =>
+        { fe with models := listInsert fe.models [(v, x)],
+                  evalExh := listInsert fe.evalExh eid, maxExh := listInsert fe.maxExh eid,
+                  minExh := listInsert fe.minExh eid, maxSExh := listInsert fe.maxSExh eid,
+                  minSExh := listInsert fe.minSExh eid }
+    | none => fe
+  else fe
+
+/-- the re-validation of the cached models against the added constraints -/
+def invalFe (E : Env) (cs added : List Con) (fe : Frontend) : Frontend :=
+  let fe1 := if cs.any (·.isFalse) then { fe with models := [] } else fe
+  if (getModels E fe1 added).length != fe1.models.length then { clearFlags fe1 with models := getModels E fe1 added }
+  else fe1
+
+/-- what ModelCacheMixin._add does to the record after `super()._add` returned `added` (non-empty) -/
+def mcAfterAddFe (E : Env) (oldVars : List Var) (cs : List Con) (invalidate : Bool) (added : List Con) (fe : Frontend) :
+    Frontend :=
+  if (added.any fun a => a.vars.any fun v => !oldVars.contains v) || invalidate then invalFe E cs added (trivOptFe fe)
+  else trivOptFe fe
+
+theorem mcAdd_eq (E : Env) (self sup : Ops) (cs : List Con) (invalidate : Bool) (s : St) :
+    (modelCacheLayer E self sup).add cs invalidate s =
+      if cs.isEmpty then (.ok cs, s)
+      else match sup.add cs invalidate s with
+        | (.ok added, s') =>
+            if added.isEmpty then (.ok added, s')
+            else (.ok added, { s' with fe := mcAfterAddFe E s.fe.variables cs invalidate added s'.fe })
+        | (.error e, s') => (.error e, s') := by
+  show (do
+      if cs.isEmpty then pure cs
+      else do
+        let oldVars := (← M.getFe).variables
+        let added ← sup.add cs invalidate
+        if added.isEmpty then pure added
+        else do
+          let fe ← M.getFe
+          if fe.constraints.length == 1 && fe.models.isEmpty then
+            match (fe.constraints.headD default).triv with
+            | some (v, x, eid) =>
+              M.modifyFe fun fe =>
+                { fe with models := listInsert fe.models [(v, x)],
+                          evalExh := listInsert fe.evalExh eid, maxExh := listInsert fe.maxExh eid,
+                          minExh := listInsert fe.minExh eid, maxSExh := listInsert fe.maxSExh eid,
+                          minSExh := listInsert fe.minSExh eid }
+            | none => pure ()
+          let newVars := added.any fun a => a.vars.any fun v => !oldVars.contains v
+          if newVars || invalidate then
+            if cs.any (·.isFalse) then M.modifyFe fun fe => { fe with models := [] }
+            let fe ← M.getFe
+            let stillValid := getModels E fe added
+            if stillValid.length != fe.models.length then
+              M.modifyFe fun fe => { clearFlags fe with models := stillValid }
+          pure added : M (List Con)) s = _
+  by_cases hemp : cs.isEmpty = true
+  · simp [hemp, pure, M.pure]
+  · simp only [hemp, Bool.false_eq_true, ↓reduceIte, bind, M.bind, M.getFe_apply]
+    rcases hq : sup.add cs invalidate s with ⟨res, s'⟩
+    cases res with
+    | error e => rfl
+    | ok added =>
+      simp only
+      by_cases hae : added.isEmpty = true
+      · simp [hae, pure, M.pure]
+      · simp only [hae, Bool.false_eq_true, ↓reduceIte, M.bind, M.getFe_apply, mcAfterAddFe, trivOptFe, invalFe]
+        by_cases hc : (s'.fe.constraints.length == 1 && s'.fe.models.isEmpty) = true <;>
+        by_cases hnv : ((added.any fun a => a.vars.any fun v => !s.fe.variables.contains v) || invalidate) = true <;>
+        by_cases hf : cs.any (·.isFalse) = true <;>
+        simp only [hc, hnv, hf, ↓reduceIte, Bool.false_eq_true]
+        all_goals first
+          | (cases ht : (s'.fe.constraints.headD default).triv with
+             | none => simp only [M.bind, pure, M.modifyFe_apply, M.getFe_apply]; split <;> rfl
+             | some p => obtain ⟨v, x, eid⟩ := p; simp only [M.bind, pure, M.modifyFe_apply, M.getFe_apply]; split <;> rfl)
+          | (cases ht : (s'.fe.constraints.headD default).triv with
+             | none => rfl
+             | some p => obtain ⟨v, x, eid⟩ := p; rfl)
 
 end Claripy.Solver
